@@ -1,13 +1,9 @@
 """Not-applicable list and engine list (claimed properties carry their own META in rules/cXX.py; see tools/gen_manifest.py)."""
 
-NOT_APPLICABLE = {
-    'C37': 'numerical correctness of Scala statistics routines against their mathematical definitions; no static rule in reach bounds floating-point results',
-    'C39': 'liveness and mutual exclusion over all interleavings of concurrent driver loops, workers and faults; the per-message safety '
-           'obligations it rests on are decided statically under C04/C07/C10, the protocol-level claim is not',
-}
+NOT_APPLICABLE = {}  # every property is claimed (C11, C22, C37, C39 as PARTIAL claims: see their META / DESIGN.md sections for what is NOT decided)
 
 # Properties whose rule module has been reviewed and passes on the unchanged tree; only these are claimed in MANIFEST.json.
-READY = ['C01', 'C02', 'C03', 'C04', 'C05', 'C06', 'C07', 'C08', 'C09', 'C10', 'C11', 'C12', 'C13', 'C14', 'C15', 'C16', 'C17', 'C18', 'C19', 'C20', 'C21', 'C22', 'C23', 'C24', 'C25', 'C26', 'C27', 'C28', 'C29', 'C30', 'C31', 'C32', 'C33', 'C34', 'C35', 'C36', 'C38', 'C40', 'C41']
+READY = ['C01', 'C02', 'C03', 'C04', 'C05', 'C06', 'C07', 'C08', 'C09', 'C10', 'C11', 'C12', 'C13', 'C14', 'C15', 'C16', 'C17', 'C18', 'C19', 'C20', 'C21', 'C22', 'C23', 'C24', 'C25', 'C26', 'C27', 'C28', 'C29', 'C30', 'C31', 'C32', 'C33', 'C34', 'C35', 'C36', 'C37', 'C38', 'C39', 'C40', 'C41']
 
 ENGINES = {
     'source_commits': [],
